@@ -398,3 +398,17 @@ Definition conforming_decode (m : msg) : bool :=
   | MReadFileReq _ | MWriteFileReq _ | MWriteFileRsp _ | MReadFileRsp _ | MReadDevIdRsp _ _ _ _ _ => false
   | _ => true
   end.
+
+(* the object has the constructor shape of its class (what the class's constructor builds) *)
+Definition same_shape (o f : obj) : bool :=
+  match o, f with
+  | OFixed c _, OFixed c' _ | OEmpty c, OEmpty c' | OBitsRsp c _ _, OBitsRsp c' _ _ | ORegsRsp c _, ORegsRsp c' _
+  | OCoil c _ _, OCoil c' _ _ | ODiag c _ _, ODiag c' _ _ | OFileRecs c _, OFileRecs c' _ => cls_eqb c c'
+  | OWriteRegReq _ _, OWriteRegReq _ _ | OWriteCoilsReq _ _ _, OWriteCoilsReq _ _ _
+  | OWriteRegsReq _ _ _ _, OWriteRegsReq _ _ _ _ | ORWReq _ _ _ _ _ _, ORWReq _ _ _ _ _ _
+  | OExcStatusRsp _, OExcStatusRsp _ | OEvCounterRsp _ _, OEvCounterRsp _ _ | OEvLogRsp _ _ _ _, OEvLogRsp _ _ _ _
+  | OSlaveIdRsp _ _ _, OSlaveIdRsp _ _ _ | OFifoRsp _, OFifoRsp _
+  | OMeiRsp _ _ _ _ _ _ _ _, OMeiRsp _ _ _ _ _ _ _ _ | OExc _ _ _, OExc _ _ _ | OIllegal _, OIllegal _ => true
+  | _, _ => false
+  end.
+Definition wf_shape (o : obj) : bool := same_shape o (fresh_like o).
